@@ -59,7 +59,7 @@ def effect_check(LS):
     return bad
 
 
-def run_init(mutate=None, prefixes=("C",), seeded=False):
+def run_init(mutate=None, prefixes=("C",), seeded=False, again=False):
     LS, LD = load(mutate)
     Solver = LS["TDGLSolver"]
     Device = LD["Device"]
@@ -136,6 +136,8 @@ def run_init(mutate=None, prefixes=("C",), seeded=False):
         class OpsStub:
             def __init__(self_, mesh, solver, use_cupy=False, fixed_sites=None, fix_psi=True):
                 ops_calls.append(dict(mesh=mesh, fixed_sites=fixed_sites, fix_psi=fix_psi, use_cupy=use_cupy))
+                # the public attributes of the real class
+                self_.mesh, self_.sparse_solver, self_.use_cupy, self_.fixed_sites, self_.fix_psi = mesh, solver, use_cupy, fixed_sites, fix_psi
                 self_.mu_laplacian_lu = object()
                 self_.log = []
 
@@ -232,6 +234,21 @@ def run_init(mutate=None, prefixes=("C",), seeded=False):
                    if isinstance(fs_, Cat) and len(fs_.blocks) == 2 else [], also=isinstance(fs_, Cat) and len(fs_.blocks) == 2)
         check("C10.init.operators_built_and_linked_to_applied_potential", z3.BoolVal(s.operators.log[0] == "build" and s.operators.log[1][0] == "link"
                                                                                      and s.operators.log[1][1] is s.current_A_applied))
+        if again:
+            # a second solver for the SAME device and mesh with the other choice of terminal_psi (sweeps build many solvers in one process):
+            # its operators must be pinned iff ITS terminal value is set
+            import copy as _copy
+            o2 = _copy.copy(o)
+            o2.terminal_psi = v if tp_case == "none" else None
+            n_before = len(ops_calls)
+            try:
+                s2 = Solver(dev, o2, applied_vector_potential=A_func, terminal_currents={"src": I_s, "drn": I_d}, disorder_epsilon=eps0)
+                want_fix = o2.terminal_psi is not None
+                sym.check_terms("C06.init.second_solver_on_the_same_mesh_is_pinned_iff_its_own_terminal_value_is_set",
+                                getattr(s2.operators, "fix_psi", None) is want_fix and s2.operators is not s.operators,
+                                note=f"operators.fix_psi={getattr(s2.operators, 'fix_psi', None)!r}, wanted {want_fix}; new operators built: {len(ops_calls) > n_before}")
+            except ValueError:
+                pass
         check("C12.init.first_step_is_dt_init", z3.And(sym.eq(s.tentative_dt, o.dt_init), sym.eq(s.dt_max, o.dt_max if adaptive else o.dt_init)))
         check("C12.init.history_empty", z3.BoolVal(s.d_psi_sq_vals == []))
         bad = effect_check(LS)
